@@ -48,7 +48,7 @@ impl<'p> Evaluator<'_, 'p> {
         )
     }
 
-    fn check_call_thunk_args(
+    pub(super) fn check_call_thunk_args(
         &self,
         params: &FuncParams<'p>,
         positional_args: &[GcView<ThunkData<'p>>],
